@@ -369,6 +369,195 @@ def expected(site, ex):
     return None
 
 
+# ------------------------------------------------------------------ datagram retry consequence
+TRANSIENT = [errno.ECONNREFUSED, errno.ECONNRESET, errno.ENETRESET, errno.ENETUNREACH, errno.EHOSTUNREACH,
+             errno.ENETDOWN, errno.EHOSTDOWN, errno.ETIMEDOUT, errno.ETIME]
+FATAL = [errno.EPERM, errno.EMSGSIZE, errno.EACCES, errno.ENOBUFS, errno.EINVAL]
+TX_ALL = ["serviceTxPkts", "serviceAllTx"]
+TX_ONCE = ["serviceTxPktsOnce", "serviceAllTxOnce"]
+RX_ALL = ["serviceReceives", "serviceAllRx"]
+RX_ONCE = ["serviceReceivesOnce", "serviceAllRxOnce"]
+
+
+class GramHandler(object):
+    """datagram socket double replaying a per-call oracle"""
+    opened = True
+    ha = HA
+
+    def __init__(self):
+        self.sres, self.rres, self.sent = [], [], []
+
+    def send(self, data, ha):
+        r = self.sres.pop(0) if self.sres else ("ok",)
+        if r[0] != "ok":
+            raise socket.error(r[1], os.strerror(r[1]))
+        self.sent.append((int(data), ha))
+        return len(data)
+
+    def receive(self):
+        r = self.rres.pop(0) if self.rres else ("none",)
+        if r[0] == "d":
+            return (b"%d" % r[1], ('10.9.9.9', r[1]))
+        if r[0] == "none":
+            return (b'', None)
+        raise socket.error(r[1], os.strerror(r[1]))
+
+    def reopen(self):
+        return True
+
+    def close(self):
+        pass
+
+
+class GPkt(object):
+    def __init__(self, i):
+        self.packed = b"%d" % i
+        self.i = i
+
+
+def run_gram(cls, ops):
+    from ioflo.aio.proto import stacking
+    h = GramHandler()
+    st = getattr(stacking, cls)(handler=h)
+    st.handler = h
+    raised, enq = 0, []
+    for op in ops:
+        try:
+            if op[0] == "enq":
+                st.txPkts.append((GPkt(op[1]), op[2]))
+                enq.append((op[1], op[2]))
+            elif op[0] in ("txall", "txonce"):
+                h.sres = [tuple(r) for r in (op[2] if op[0] == "txall" else [op[2]])]
+                getattr(st, op[1])()
+            else:
+                h.rres = [tuple(r) for r in (op[2] if op[0] == "rxall" else [op[2]])]
+                getattr(st, op[1])()
+        except socket.error:
+            raised += 1
+        h.sres, h.rres = [], []
+    return {"txq": [(p.i, ha) for p, ha in st.txPkts], "sent": list(h.sent), "raised": raised,
+            "rxq": [ha[1] for _, ha in st.rxPkts], "enq": enq}
+
+
+def gram_fatal(ops):
+    for op in ops:
+        rs = op[2] if op[0] in ("txall", "rxall") else [op[2]] if op[0] in ("txonce", "rxonce") else []
+        if any(r[0] == "f" for r in rs):
+            return True
+    return False
+
+
+def gram_prop(ops, r):
+    """a transient destination error is retryable, not fatal: nothing raised, no packet lost or duplicated;
+    with propagating errors in the history only `no duplication` is demanded"""
+    out = sorted(r["sent"] + r["txq"])
+    if not gram_fatal(ops):
+        if r["raised"]:
+            return "a transient datagram error propagated out of a service call"
+        if out != sorted(r["enq"]):
+            missing = [p for p in r["enq"] if p not in out]
+            return "packet(s) %r neither sent nor still queued after a transient send error" % (missing,)
+    elif len(set(out)) != len(out) or any(p not in r["enq"] for p in out):
+        return "a packet was sent / queued twice"
+    # single-shot path only (no full pass, no propagating error): the order is preserved exactly
+    if not gram_fatal(ops) and not any(op[0] == "txall" for op in ops) and r["sent"] + r["txq"] != r["enq"]:
+        return "the single-shot path reordered the packets: sent ++ queued = %r" % (r["sent"] + r["txq"],)
+    return None
+
+
+def c_gops(ops):
+    def sr(r):
+        return {"ok": "SOk", "t": "STransient", "f": "SFatal"}[r[0]]
+
+    def rr(r):
+        return {"d": lambda: "RData %s" % cz(r[1]), "none": lambda: "RNone", "t": lambda: "RTransient",
+                "f": lambda: "RFatal"}[r[0]]()
+    out = []
+    for op in ops:
+        if op[0] == "enq":
+            out.append("Enq (%s, %s)" % (cz(op[1]), cz(op[2])))
+        elif op[0] == "txall":
+            out.append("TxAll %s" % clist([sr(r) for r in op[2]], "sres"))
+        elif op[0] == "txonce":
+            out.append("TxOnce %s" % sr(op[2]))
+        elif op[0] == "rxall":
+            out.append("RxAll %s" % clist([rr(r) for r in op[2]], "rres"))
+        else:
+            out.append("RxOnce (%s)" % rr(op[2]))
+    return clist(out, "gop")
+
+
+GRAM_HEADER = """From Coq Require Import List ZArith Bool.
+Import ListNotations.
+Require Import V.C25.Gram.
+Open Scope Z_scope.
+Fixpoint lz_eqb (a b : list Z) := match a, b with [], [] => true | x :: a', y :: b' => Z.eqb x y && lz_eqb a' b' | _, _ => false end.
+Fixpoint llz_eqb (a b : list (list Z)) := match a, b with [], [] => true | x :: a', y :: b' => lz_eqb x y && llz_eqb a' b' | _, _ => false end.
+Definition flatp (l : list pkt) : list Z := flat_map (fun p => [fst p; snd p]) l.
+Definition gobs (s : gs) : list (list Z) := [flatp (txq s); flatp (sent s); rxq s; [Z.of_nat (raised s)]].
+"""
+
+
+def c_gobs(r):
+    def fl(l):
+        return clist([cz(x) for p in l for x in p], "Z")
+    return clist([fl(r["txq"]), fl(r["sent"]), clist([cz(x) for x in r["rxq"]], "Z"),
+                  clist([cz(r["raised"])], "Z")], "(list Z)")
+
+
+def gram_histories(rng, nrandom):
+    import itertools
+    base = [("enq", 1, 10), ("enq", 2, 10), ("enq", 3, 20)]
+    # every transient errno on the head packet through every tx entry point, then a clean full pass
+    for k, e in enumerate(TRANSIENT + FATAL):
+        tag = "t" if e in TRANSIENT else "f"
+        for ent in TX_ALL:
+            yield base + [("txall", ent, [(tag, e)]), ("txall", TX_ALL[k % 2], [])]
+        for ent in TX_ONCE:
+            yield base + [("txonce", ent, (tag, e)), ("txall", TX_ALL[k % 2], [])]
+        for ent in RX_ALL:
+            yield [("rxall", ent, [(tag, e)]), ("rxall", ent, [])]
+        for ent in RX_ONCE:
+            yield [("rxonce", ent, (tag, e)), ("rxonce", ent, ("none",))]
+    yield [("rxall", "serviceReceives", [("d", 5), ("d", 6), ("t", errno.ECONNREFUSED), ("d", 7)]),
+           ("rxonce", "serviceReceivesOnce", ("d", 8)), ("rxall", "serviceReceives", [("d", 9), ("none",), ("d", 1)])]
+    # small scope: <= 3 packets over 2 destinations x every result pattern x entry kind
+    alph = [("ok",), ("t", errno.ECONNREFUSED), ("f", errno.EPERM)]
+    for n in (1, 2, 3):
+        for dests in itertools.product((10, 20), repeat=n):
+            enq = [("enq", i + 1, d) for i, d in enumerate(dests)]
+            for orc in itertools.product(alph, repeat=n):
+                yield enq + [("txall", TX_ALL[n % 2], list(orc)), ("txall", "serviceTxPkts", [])]
+            for orc in itertools.product(alph, repeat=min(n, 2)):
+                yield enq + [("txonce", TX_ONCE[(n + k) % 2], r) for k, r in enumerate(orc)] + [("txall", "serviceAllTx", [])]
+    for n in (1, 2, 3):
+        for dests in itertools.product((10, 20), repeat=n):
+            enq = [("enq", i + 1, d) for i, d in enumerate(dests)]
+            for orc in itertools.product([("ok",), ("t", errno.EHOSTUNREACH)], repeat=3):
+                yield enq + [("txonce", TX_ONCE[k % 2], r) for k, r in enumerate(orc)]   # single-shot path only
+    for _ in range(nrandom):
+        ops, pid = [], 0
+        for _ in range(rng.randint(3, 16)):
+            x = rng.random()
+            if x < 0.45:
+                pid += 1
+                ops.append(("enq", pid, 10 * rng.randint(1, 3)))
+            elif x < 0.65:
+                orc = [rng.choice([("ok",), ("ok",), ("t", rng.choice(TRANSIENT)), ("f", rng.choice(FATAL))] if rng.random() < 0.2
+                                  else [("ok",), ("t", rng.choice(TRANSIENT))]) for _ in range(rng.randint(0, 5))]
+                ops.append(("txall", rng.choice(TX_ALL), orc))
+            elif x < 0.85:
+                ops.append(("txonce", rng.choice(TX_ONCE), rng.choice([("ok",), ("t", rng.choice(TRANSIENT)), ("t", rng.choice(TRANSIENT)),
+                                                                        ("f", rng.choice(FATAL))] if rng.random() < 0.2
+                                                                       else [("ok",), ("t", rng.choice(TRANSIENT))])))
+            elif x < 0.93:
+                ops.append(("rxall", rng.choice(RX_ALL), [rng.choice([("t", rng.choice(TRANSIENT)), ("none",)])]))
+            else:
+                ops.append(("rxonce", rng.choice(RX_ONCE), rng.choice([("t", rng.choice(TRANSIENT)), ("none",), ("f", errno.EPERM)])))
+        ops.append(("txall", "serviceTxPkts", []))
+        yield ops
+
+
 def run(ctx):
     from ioflo.aid.consoling import getConsole
     getConsole().reinit(verbosity=0)   # keep ioflo's console output out of the check's stdout
@@ -448,11 +637,39 @@ def run(ctx):
                            "error %s: implementation outcome %s differs from the extracted table" % (metas[i][1], metas[i][2]))
         ctx.extra["mismatches"] = len(bad)
 
+    # ---- datagram retry consequence: histories through every service entry point of GramStack / UdpStack
+    gmetas, gcases = [], []
+    for cls in ("GramStack", "UdpStack"):
+        for ops in gram_histories(ctx.rng, ctx.n(150, 1500)):
+            r = run_gram(cls, ops)
+            tr = sum(1 for op in ops if op[0] in ("txall", "txonce") for x in (op[2] if op[0] == "txall" else [op[2]]) if x[0] == "t")
+            ctx.case({"stack": cls, "ops": ops}, nontrivial=tr > 0, kind="gram/%s" % cls)
+            gcases.append(("gobs (grun %s)" % c_gops(ops), c_gobs(r)))
+            gmetas.append((cls, ops, r))
+    if sites:
+        try:
+            gbad = ctx.coq_cases(GRAM_HEADER, "llz_eqb", gcases, name="gram")
+        except RuntimeError as ex:
+            ctx.tie_broken("harness", "coq_cases gram", str(ex)[-1500:])
+            gbad = []
+        for i in gbad[:5]:
+            cls, ops, r = gmetas[i]
+            ctx.tie_broken("correspondence", "C25 Gram model vs %s" % cls, "ops=%r impl=%r" % (ops, r))
+        ctx.extra["gram_mismatches"] = len(gbad)
+
     def search():
+        gfail = None
+        for cls, ops, r in gmetas:
+            why = gram_prop(ops, r)
+            if why and (gfail is None or len(repr(ops)) < len(repr(gfail["ops"]))):
+                gfail = {"key": "gram-transient-send-error-loses-packet", "stack": cls, "ops": ops,
+                         "observed": r, "why": why,
+                         "expected": "after transient send errors every queued packet is either sent or still queued; nothing raised",
+                         "contradicts": "C25.Props.gram_transient_error_never_loses_a_packet"}
         fails = [(s, l, g, w) for s, l, g, w in observed
                  if w is not None and (g not in w if isinstance(w, tuple) else g != w)]
         if not fails:
-            return None
+            return gfail
         tls = [f for f in fails if "Tls" in f[0]]
         gram = [f for f in fails if f[0].startswith("GramStack")]
         rest = [f for f in fails if f not in tls and f not in gram]
